@@ -37,6 +37,17 @@ pub fn case_ids(o: &Opts) -> Vec<String> {
         for i in 0..n1 {
             v.push(format!("E1:{}:{}", op, i));
         }
+        // the larger size classes of E1 (tracing code sits in every branch of every operator: a
+        // branch that only large configurations reach - the 129th member, the 256th inner source -
+        // has to be compared too)
+        for i in 0..n1 / 16 {
+            v.push(format!("E1:{}+deep:{}", op, i));
+        }
+        if *op != "tree" {
+            for i in 0..(n1 / 128).max(16) {
+                v.push(format!("E1:{}+wide:{}", op, i));
+            }
+        }
     }
     for i in 0..n2 {
         v.push(format!("E2:pipeline:{}", i));
@@ -129,7 +140,7 @@ pub fn digest_main(o: &Opts, subscriber: bool) -> i32 {
         for t in 0..nthreads {
             let ids = &ids;
             let seed = o.seed;
-            hs.push(s.spawn(move || {
+            hs.push(std::thread::Builder::new().stack_size(256 << 20).spawn_scoped(s, move || {
                 let mut v = vec![];
                 let mut i = t;
                 while i < ids.len() {
@@ -138,7 +149,7 @@ pub fn digest_main(o: &Opts, subscriber: bool) -> i32 {
                     i += nthreads;
                 }
                 v
-            }));
+            }).expect("spawn worker"));
         }
         for h in hs {
             outs.push(h.join().unwrap_or_default());
@@ -211,7 +222,7 @@ pub fn run(o: &Opts, rep: &mut Report) {
         for t in 0..nthreads {
             let ids = &ids;
             let seed = o.seed;
-            hs.push(s.spawn(move || {
+            hs.push(std::thread::Builder::new().stack_size(256 << 20).spawn_scoped(s, move || {
                 let mut v = vec![];
                 let mut i = t;
                 while i < ids.len() {
@@ -220,7 +231,7 @@ pub fn run(o: &Opts, rep: &mut Report) {
                     i += nthreads;
                 }
                 v
-            }));
+            }).expect("spawn worker"));
         }
         for h in hs {
             for (i, hh, n) in h.join().unwrap_or_default() {
